@@ -17,6 +17,7 @@ package robytes
 import (
 	"bytes"
 	"unicode"
+	"unicode/utf8"
 
 	"github.com/samber/ro"
 )
@@ -26,12 +27,19 @@ func words(str []byte) [][]byte {
 	// example: Int8Value => Int 8Value => Int 8 Value
 	str = splitNumberLetterReg.ReplaceAll(str, []byte("$1 $2"))
 	var result bytes.Buffer
-	for _, r := range str {
-		if unicode.IsLetter(rune(r)) || unicode.IsDigit(rune(r)) {
-			result.WriteByte(r)
+	// decode valid UTF-8 sequences as rostrings.words does: a byte of a multi-byte character is
+	// not a character of its own; a byte that is not valid UTF-8 is still looked at alone
+	for len(str) > 0 {
+		r, size := utf8.DecodeRune(str)
+		if r == utf8.RuneError && size == 1 {
+			r = rune(str[0])
+		}
+		if unicode.IsLetter(r) || unicode.IsDigit(r) {
+			result.Write(str[:size])
 		} else {
 			result.WriteByte(' ')
 		}
+		str = str[size:]
 	}
 	return bytes.Fields(result.Bytes())
 }
